@@ -9,6 +9,7 @@ import (
 	"path/filepath"
 	"sort"
 	"strings"
+	"sync"
 
 	"golang.org/x/tools/go/packages"
 	"golang.org/x/tools/go/ssa"
@@ -16,21 +17,22 @@ import (
 )
 
 type Program struct {
-	fset      *token.FileSet
-	pkgs      []*packages.Package
-	ssaProg   *ssa.Program
-	ssaPkgs   []*ssa.Package
-	contracts *Contracts
-	funcs     map[string]*ssa.Function // "pkg.Key" -> function
-	funcKeys  map[*ssa.Function]string
-	constants map[string]int64
-	strConsts map[string]int // string -> ordinal
-	strByID   map[string]string
-	keySorts  map[string]Sort
+	fset            *token.FileSet
+	pkgs            []*packages.Package
+	ssaProg         *ssa.Program
+	ssaPkgs         []*ssa.Package
+	contracts       *Contracts
+	funcs           map[string]*ssa.Function // "pkg.Key" -> function
+	funcKeys        map[*ssa.Function]string
+	constants       map[string]int64
+	strConsts       map[string]int // string -> ordinal
+	strByID         map[string]string
+	keySorts        map[string]Sort
 	lemmasByTrigger map[string][]*Lemma
 	lemmaOrder      map[string]int
-	repoDir   string
-	allFuncs  []*ssa.Function
+	repoDir         string
+	allFuncs        []*ssa.Function
+	byName          map[string]*ssa.Function // every SSA function (including synthetic thunks) by String()-suffix name
 }
 
 const modulePath = "zombiezen.com/go/commonmark"
@@ -64,6 +66,14 @@ func loadProgram(repo string, overlay map[string][]byte) (*Program, error) {
 	p.contracts, err = loadContractsOverlay(dirs, overlay)
 	if err != nil {
 		return nil, err
+	}
+	p.byName = map[string]*ssa.Function{}
+	for fn := range ssautil.AllFunctions(prog) {
+		full := fn.String()
+		if strings.Contains(full, modulePath) {
+			short := strings.ReplaceAll(strings.ReplaceAll(full, modulePath+"/format.", "format."), modulePath+".", "")
+			p.byName[short] = fn
+		}
 	}
 	for fn := range ssautil.AllFunctions(prog) {
 		if !p.inScope(fn) || fn.Synthetic != "" && !strings.HasPrefix(fn.Synthetic, "package init") {
@@ -329,7 +339,11 @@ func (p *Program) dynamicCallMods(c *ssa.CallCommon) []string {
 
 // ---- string constants ----
 
+var strMu sync.Mutex
+
 func (p *Program) stringConst(x *Exec, s string, ty types.Type) SV {
+	strMu.Lock()
+	defer strMu.Unlock()
 	n, ok := p.strConsts[s]
 	if !ok {
 		n = len(p.strConsts) + 1
@@ -356,7 +370,9 @@ func (p *Program) constOf(v SV) (string, bool) {
 		return "", true
 	}
 	if v.Id.Op == "app" && strings.HasPrefix(v.Id.Name, "strconst.") && v.Off.IsInt() && v.Off.Int.Sign() == 0 && v.Len.IsInt() {
+		strMu.Lock()
 		s := p.strByID[v.Id.Name]
+		strMu.Unlock()
 		if int64(len(s)) == v.Len.Int.Int64() {
 			return s, true
 		}
